@@ -20,7 +20,7 @@ Theorem C19_abi_check_sound :
   (forall f c c', callrel f c c' -> call_ok (claims f) c c') ->
   forall f, check_c19 claims f = true ->
   forall c tm c', entry_state R0 c ->
-  run cstate (gbstep R0 callrel) (cfg_of f) 1%positive c tm c' ->
+  run cstate (gbstep R0 callrel) gcond (cfg_of f) 1%positive c tm c' ->
   (tm = TRet \/ tm = TTailInd \/ exists g, tm = TTail g) ->
   cv (cr c' RSP) = R0 RSP /\
   cv (cr c' 3) = R0 3%nat /\ cv (cr c' 5) = R0 5%nat /\ cv (cr c' 12) = R0 12%nat /\
@@ -36,7 +36,7 @@ Theorem C19_claim_sound :
   (forall f c c', callrel f c c' -> call_ok (claims f) c c') ->
   forall f, check_gclaim claims f = true ->
   forall c tm c', entry_state R0 c ->
-  run cstate (gbstep R0 callrel) (cfg_of f) 1%positive c tm c' ->
+  run cstate (gbstep R0 callrel) gcond (cfg_of f) 1%positive c tm c' ->
   match tm with
   | TRet | TTail _ | TTailInd => restored_conc R0 (cl_pres (claims (fid f))) c'
   | TBad => False
@@ -57,7 +57,7 @@ Theorem C19_entry_points : forall f,
   forall (R0 : nat -> Z) (callrel : positive -> cstate -> cstate -> Prop),
   (forall g c c', callrel g c c' -> call_ok (claims g) c c') ->
   forall c tm c', entry_state R0 c ->
-  run cstate (gbstep R0 callrel) (cfg_of f) 1%positive c tm c' ->
+  run cstate (gbstep R0 callrel) gcond (cfg_of f) 1%positive c tm c' ->
   (tm = TRet \/ tm = TTailInd \/ exists g, tm = TTail g) ->
   cv (cr c' RSP) = R0 RSP /\
   cv (cr c' 3) = R0 3%nat /\ cv (cr c' 5) = R0 5%nat /\ cv (cr c' 12) = R0 12%nat /\
@@ -72,7 +72,7 @@ Theorem C19_internal_routines : forall f,
   forall (R0 : nat -> Z) (callrel : positive -> cstate -> cstate -> Prop),
   (forall g c c', callrel g c c' -> call_ok (claims g) c c') ->
   forall c c', entry_state R0 c ->
-  run cstate (gbstep R0 callrel) (cfg_of f) 1%positive c TRet c' ->
+  run cstate (gbstep R0 callrel) gcond (cfg_of f) 1%positive c TRet c' ->
   restored_conc R0 (cl_pres (claims (fid f))) c'.
 Proof. exact c19_internal. Qed.
 Print Assumptions C19_internal_routines.
@@ -85,6 +85,12 @@ Example C19_nonvacuous :
   check_c19 ex_claims ex_bad = false /\ check_c19 ex_claims ex_bad_store = false /\
   check_c19 ex_claims ex_bad_df = false /\ check_c19 ex_claims ex_bad_rsp = false.
 Proof. exact ex_c19. Qed.
+(* the range extension: a counted loop of frame-relative indexed stores is accepted exactly when its bound
+   keeps the stores below the saved registers; pointers swapped by xchg through a double buffer are accepted *)
+Example C19_nonvacuous_ranges :
+  check_c19 ex_claims ex_idx_good = true /\ check_c19 ex_claims ex_idx_bad = false /\
+  check_c19 ex_claims ex_xchg_good = true.
+Proof. exact ex_c19_ranges. Qed.
 Example C19_entry_state_exists : exists c, entry_state (fun r => Z.of_nat r * 1000) c.
 Proof. exact ex_entry_state. Qed.
 Example C19_tables_populated : Nat.leb 300 (length all_funcs) = true /\ Nat.leb (length c19_unproved) 40 = true /\
